@@ -3,7 +3,12 @@ import common as C
 import gen as G
 
 THEOREMS = ['range_loop_is_python_slice', 'range_is_progression', 'range_never_out_of_bounds',
-            'range_bounds_are_clamped', 'full_range_selects_everything', 'integer_index_wraps', 'out_of_range_is_error', 'carry_selects_indexed_elements', 'range_slice_is_list_slice']
+            'range_bounds_are_clamped', 'full_range_selects_everything', 'integer_index_wraps',
+            'out_of_range_is_error', 'carry_selects_indexed_elements', 'range_slice_is_list_slice',
+            'getitem_refines_spec_partial', 'getitem_never_out_of_fuel', 'getitem_fuel_independent',
+            'getitem_fuel_enough_without_ellipsis', 'getitem_fuel_enough_shallow', 'getitem_refines_spec_norecords',
+            'field_projection_refines', 'fields_projection_refines', 'field_commutes_with_positional',
+            'getitem_array_alone']
 RULE = ('value-first random layouts x slice tuples of length 0-4 over {integer, range (bounds in [-len-2, len+2] or None, '
         'steps +-1..3), ellipsis, newaxis, 1-d integer arrays (boolean arrays as nonzero), field, fields}, incl. '
         'out-of-range indexes; non-trivial = slice has >= 1 dimension-consuming item and the input has >= 1 non-empty '
